@@ -240,7 +240,19 @@ fn cli(args: &[String]) -> i32 {
                     return 2;
                 }
             };
+            {
+                // the same liveness watchdog as in a batch: a replay which does not return is the violation "no-return"
+                let tier = doc.get("tier").and_then(|t| t.as_str()).and_then(coord::Tier::from_name).or_else(|| doc["origin"]["tier"].as_str().and_then(coord::Tier::from_name)).unwrap_or(coord::Tier::Quick);
+                let (prop, path) = (prop.clone(), path.clone());
+                coord::start_watchdog(coord::case_limit_s(tier), move |_, _, secs| {
+                    say!("  {prop}:no-return the case did not return within {secs} s of wall time");
+                    say!("VIOLATION property={} replay={}", prop, path);
+                    unsafe { libc::_exit(1) };
+                });
+                coord::watch_begin(0, 0);
+            }
             let rec = scn.replay(&doc);
+            coord::watch_end();
             let expect_rule = doc["expect"]["rule"].as_str().unwrap_or("");
             let expect_log = doc["expect"]["log"].as_str().unwrap_or("");
             say!("replay log={:016x} expected_log={} issues={}", rec.log_hash, expect_log, rec.issues.len());
